@@ -604,14 +604,10 @@ func ParentMain(o Options) int {
 			samples = append(samples, map[string]any{"index": i, "case": p.Describe(i)})
 		}
 	}
-	states := total.States
-	if states == 0 {
-		states = total.Cases
-	}
-	transitions := total.Transitions
-	if transitions == 0 {
-		transitions = total.Execs
-	}
+	// states: enumerated cases plus distinct scheduler / choice states seen inside exploring cases;
+	// transitions: implementation executions plus scheduling / choice points passed
+	states := total.Cases + total.States
+	transitions := total.Execs + total.Transitions
 	knownObs := []any{}
 	for k, f := range findings {
 		if f.Property == o.ID && f.Kind == "known" {
